@@ -11,3 +11,8 @@ Definition history_accepted_nokp_c := history_accepted_nokp chpen_core nondefaul
 Definition history_accepted_full_partial_c := history_accepted_full_partial chpen_core nondefault_enc term_pen.
 Definition balanced_nokp_c := balanced_nokp chpen_core nondefault_enc term_pen.
 Definition toplevel_balanced_nokp_c := toplevel_balanced_nokp chpen_core nondefault_enc term_pen.
+Definition toplevel_reports_nokp_c := toplevel_reports_nokp chpen_core nondefault_enc term_pen.
+Definition history_reports_accepted_nokp_c := history_reports_accepted_nokp chpen_core nondefault_enc term_pen.
+Definition history_reports_accepted_full_partial_c := history_reports_accepted_full_partial chpen_core nondefault_enc term_pen.
+Definition balanced_reports_nokp_c := balanced_reports_nokp chpen_core nondefault_enc term_pen.
+Definition toplevel_reports_balanced_nokp_c := toplevel_reports_balanced_nokp chpen_core nondefault_enc term_pen.
